@@ -19,14 +19,27 @@ import (
 // merkle roots and tree store
 
 var recMerkle = ev.New("C13", "merkle",
-	"tx lists of length 0..131 (mixture: 0..4, 2^k-1/2^k/2^k+1, uniform) with or without a coinbase in front, witness data on some, "+
+	"tx lists of length 0..131 (mixture: 0..4, 2^k-1/2^k/2^k+1, uniform; one case in 30 has 255..4608 entries next to powers of two and multiples of 512) with or without a coinbase in front, witness data on some, "+
 		"optionally a duplicated tail (last k entries repeat the k before them); oracle = recursive merkle root with the duplicate-last rule over "+
 		"txid / wtxid leaves (coinbase position = 32 zero bytes) computed with an own serialiser; CalcMerkleRoot, every slot of BuildMerkleTreeStore "+
 		"(incl. nil padding, root = last slot) and both construction paths against each other; non-trivial = some level has an odd node count, "+
 		"or a duplicated tail, or the empty list; distinct by (leaf serialisations, form order)",
 	"empty", "single", "pow2", "odd-level", "dup-tail", "with-witness")
 
+// bigTxCounts: around powers of two and multiples of 512 (tree algorithms that
+// work on the bits of the leaf count)
+var bigTxCounts = []int{255, 256, 257, 511, 512, 513, 1023, 1024, 1025, 1535, 1536, 1537, 2047, 2048, 2049, 2559, 2560, 3071, 3072, 3073, 4095, 4096, 4607, 4608}
+
 func genTxCount() *rapid.Generator[int] {
+	return rapid.Custom(func(t *rapid.T) int {
+		if rapid.IntRange(0, 29).Draw(t, "bigList") == 0 {
+			return rapid.SampledFrom(bigTxCounts).Draw(t, "bigN")
+		}
+		return genSmallTxCount().Draw(t, "smallN")
+	})
+}
+
+func genSmallTxCount() *rapid.Generator[int] {
 	return rapid.OneOf(
 		rapid.IntRange(0, 4),
 		rapid.SampledFrom([]int{5, 6, 7, 8, 9, 10, 11, 12, 13, 15, 16, 17, 24, 31, 32, 33, 48, 63, 64, 65, 96, 127, 128, 129, 130, 131}),
